@@ -32,6 +32,9 @@ ASSUMPTIONS = [
     "(the model carries the exact rational; K compares printf(\"%.15g\") of the library's double with the model's exact decimal)",
     "Dic<T> (sorted array + binary search) behaves as a finite map ordered by strcmp (C02)",
     "String primitives substring/indexOf/trim/operator== (C03)",
+    "strtoul(text, NULL, 16) of libc with a 64-bit unsigned long: isspace blanks, optional sign ('-' negates the unsigned long), optional 0x/0X "
+    "consumed only before a hex digit, longest hex-digit prefix, ULONG_MAX on overflow (AslModel.Csv.hexU32; exercised by K on 'h' columns "
+    "incl. signs, blanks, junk tails, 2^32 and 2^64 overflow)",
 ]
 
 NOSEC = b"-"
@@ -368,7 +371,7 @@ def csv_sep_case(rng, tier):
 
 
 def csv_typed_case(rng, tier):
-    """readAs(types): columns typed n / s / i, a character that matches no case (the cell is dropped), fewer type characters
+    """readAs(types): columns typed n / s / i / h, a character that matches no case (the cell is dropped), fewer type characters
     than columns (the rest is inferred); 's' columns hold ANY string, number look-alikes included; every separator setting"""
     sep, dec = rng.choice([(44, 46), (44, 46), (59, 46), (59, 44), (9, 46)])
     ncols = rng.randrange(2, 7)
@@ -814,7 +817,10 @@ LEVEL_TEXT = ("Proved in Lean 4 about the model that the driver runs against the
               "';' files (decimal comma guessed), numbers written with '.' being numbers again (fix cb50e4a); csv_typed_row: rows read with "
               "readAs(types), for every separator and the writer's decimal symbol '.' or equal to the reader's: an 's' column returns ANY string byte "
               "for byte (also strings that spell numbers), an 'n' column myatof of the number text (decimal comma written and read back), an "
-              "'i' column the integer exactly for [-]digits below 2^31, a column whose character matches no case is dropped; csv_header_sniff: "
+              "'i' column the integer exactly for [-]digits below 2^31, an 'h' column (String::hexToInt = (unsigned) strtoul(text, 0, 16), then Var(unsigned)) the value of every hex "
+              "number text ([0x|0X] + hex digits of either case, below 2^32) as an int below 2^31 and as the exact double above (csv_typed_hex; the same inside csv_typed_row and "
+              "csv_table_roundtrip_typed through Fits/typedSpec; signs, blanks, junk tails and 32/64-bit overflow of strtoul are in the model Csv.hexU32 and compared by K only), "
+              "a column whose character matches no case is dropped; csv_header_sniff: "
               "readHeader recognises ',' ';' tab in every header of identifier names (two columns at least unless ','), decimal ',' for ';' files, whatever follows; "
               "csv_table_roundtrip_typed / csv_table_roundtrip_semicolon / csv_table_roundtrip_decimal_comma / csv_table_roundtrip_tab: WHOLE tables for each of the three separators, written "
               "cell by cell after setSeparator / setDecimal and read by a fresh TabularDataFile with readAs (any types, decimal comma included) or without "
@@ -846,5 +852,5 @@ LEVEL_NOTE = ("NO THEOREM covers the '15 significant digits' clause itself: that
               "(csv_table_roundtrip_decimal_comma, untyped; csv_table_roundtrip_typed, typed); one-column tables with a non-default separator are outside (no separator in the file to sniff, "
               "csv_one_column_needs_default_separator); rows of the typed / separator table theorems must not start with byte 0xEF (BOM test); number texts with more than 18 mantissa or 9 exponent digits overflow in the C code and are "
               "outside theorem and generator. Not modelled: IniFile::section()/arraysize()/array() (deprecated), write(otherName); TabularDataFile ARFF output, "
-              "the type character 'h' of readAs() (strtoul base 16, libc; rejected by driver and harness, never generated), flushEvery; readAs() with fewer type characters "
+              "flushEvery; readAs() with fewer type characters "
               "than columns (the rest inferred) is in the model and K (op tabrtt) but the theorems take one type character per column; useQuotes() has no effect in the library. Trusted: Lean kernel, harness/c18.cpp, the generator; libc fgets/feof, strtod, snprintf %.15g, pow as listed.")
